@@ -2,6 +2,7 @@ import AM.Spec.Sshd
 import AM.Model.Syslog
 import AM.Proto
 import AM.ProtoTracker
+import AM.Model.Pipe
 /-! `amdriver <mode> [property]`: runs the executable model on cases read from stdin, one per line,
 prints the model's canonical observation, the verdict of the property's executable `Spec` on it
 and — when the case carries the implementation's observation (`obs=`) — the verdict on that. -/
@@ -134,6 +135,27 @@ def trackerLine (prop : String) (f : List String) : String :=
       s!"{id} {o.render} spec={verdict sp} ispec={isp} dom={dom} nt={nt} amb={if amb then "1" else "0"}"
   | _ => "!badline"
 
+/-- C12: `<id> <delim dec> <cbfail:-|k> <chunkhex>,… [pauses=…] [obs=…]` -/
+def pipeLine (f : List String) : String :=
+  match f with
+  | id :: d :: fa :: chunks :: rest =>
+    match d.toNat?, (chunks.splitOn ",").mapM ofHex with
+    | some dn, some cs =>
+      let delim := Char.ofNat dn
+      let failAt := if fa == "-" then none else fa.toNat?
+      let o := Pipe.run delim failAt cs
+      let exp := Pipe.expected delim failAt cs.flatten
+      let sp := if o = exp then "ok" else "FAIL:model-differs-from-expected"
+      let isp := match kv rest "obs" with
+        | none => "-"
+        | some x => if x == Pipe.render exp then "ok" else
+            if (x.splitOn ";").getLast? != (Pipe.render exp |>.splitOn ";").getLast? then "FAIL:result"
+            else "FAIL:deliveries"
+      let nt := if o.1.length ≥ 2 then "1" else "0"
+      s!"{id} {Pipe.render o} spec={sp} ispec={isp} dom=1 nt={nt}"
+    | _, _ => s!"{id} !badcase"
+  | _ => "!badline"
+
 partial def loop (h : IO.FS.Stream) (out : IO.FS.Stream) (f : List String → String) : IO Unit := do
   let line ← h.getLine
   if line.isEmpty then return ()
@@ -147,5 +169,6 @@ def main (args : List String) : IO UInt32 := do
   match args with
   | ["sshd", prop] => loop stdin stdout (sshdLine prop); return 0
   | ["c07"] => loop stdin stdout c07Line; return 0
+  | ["pipe"] => loop stdin stdout pipeLine; return 0
   | ["tracker", prop] => loop stdin stdout (trackerLine prop); return 0
   | _ => IO.eprintln "usage: amdriver <mode> [property]"; return 2
